@@ -2,4 +2,35 @@ pub mod c01;
 pub mod c02;
 pub mod c03;
 pub mod c04;
+pub mod c05;
 pub mod c09;
+
+/// Print the reference model's and the real parser's view of one case (used by `replay`).
+pub fn show_case(g: &crate::gram::G, input: &[char]) {
+    use crate::drv::*;
+    use crate::mk::*;
+    println!("grammar: {}", g.show());
+    println!("input:   {:?}", input.iter().collect::<String>());
+    let m = model_of(g, input, true);
+    println!("model:   out={} pathological={}", m.out.as_ref().map(|v| v.show()).unwrap_or("-".into()), m.pathological);
+    println!("         emissions={:?}", m.em.iter().map(|e| e.show()).collect::<Vec<_>>());
+    println!("         pending={}", m.pend.as_ref().map(|e| e.show()).unwrap_or("-".into()));
+    println!("         trace={:?}", m.trace.iter().map(|p| (p.id, p.pos, p.st.n)).collect::<Vec<_>>());
+    let buf = Buf::new(input);
+    let p = build::<&str, chumsky::error::Rich<char>>(g, Opts::default());
+    for mode in ["parse", "check"] {
+        let r = guarded(|| if mode == "parse" { run_parse(&p, &buf, 0, STEP_BUDGET) } else { run_check(&p, &buf, 0, STEP_BUDGET) });
+        match r {
+            Ok(r) => {
+                println!("{}:   has_output={} out={}", mode, r.has_output, r.out.as_ref().map(|v| v.show()).unwrap_or("-".into()));
+                for e in &r.errs {
+                    println!("         error {}", e.show());
+                }
+                println!("         state={:?} trace={:?} steps={}", r.st, r.trace.iter().map(|p| (p.id, p.off, p.n)).collect::<Vec<_>>(), r.steps);
+                let w = What { value: mode == "parse", trace: true, state: true, emits: true, primary: true, ..Default::default() };
+                println!("         judge(all rules): {:?}", judge::<&str>(&buf, &m, &r, w));
+            }
+            Err(e) => println!("{}:   {}", mode, e),
+        }
+    }
+}
